@@ -303,7 +303,16 @@ let op_of (s : string) : bop =
   | "R" -> Reserve (n_of_int (int_of_string arg))
   | "L" -> SetLength (if arg = "-" then None else Some (n_of_int (int_of_string arg)))
   | "P" -> WritePayload (payload_of arg)
-  | "B" -> WritePayloads (if arg = "-" then [] else List.map payload_of (split_on '|' arg))
+  | "B" ->
+    (* items `<n>*<payload>` are repeated n times *)
+    let item s =
+      match String.index_opt s '*' with
+      | Some i when i > 0 && (let ok = ref true in String.iteri (fun j c -> if j < i && not (c >= '0' && c <= '9') then ok := false) s; !ok) ->
+        let n = int_of_string (String.sub s 0 i) in
+        let p = payload_of (String.sub s (i + 1) (String.length s - i - 1)) in
+        List.init n (fun _ -> p)
+      | _ -> [payload_of s] in
+    WritePayloads (if arg = "-" then [] else List.concat_map item (split_on '|' arg))
   | "T" -> let (k, v) = split_once ':' arg in WriteTlv (n_of_int (int_of_string k), mbytes v)
   | "TT" -> let (k, v) = split_once ':' arg in WriteTlv (type_code types.(int_of_string k), mbytes v)
   | k -> failwith ("bad op " ^ k)
@@ -347,14 +356,19 @@ let show_rebuild x =
 
 let rec drop n l = if n = 0 then l else match l with [] -> [] | _ :: r -> drop (n - 1) r
 
-let show_write pre p =
+let show_write ?hist pre p =
+  (* earlier writes into the same writer: results ignored, the writer keeps whatever they appended *)
+  let pre = (match hist with
+             | None -> pre
+             | Some h -> List.fold_left (fun w q -> snd (write_to (payload_of q) w)) pre (split_on ';' h)) in
   let n0 = List.length pre in
   let (r, w) = write_to p pre in
   let tb = (match to_bytes p with Some v -> "OK " ^ hexs v | None -> "ERR") in
   let app = hexs (drop n0 w) in
+  let tail = (match hist with None -> "" | Some _ -> Printf.sprintf " pre=%d" n0) in
   match r with
-  | Some n -> Printf.sprintf "W=OK %s kept=1 app=%s TB=%s" (nstr n) app tb
-  | None -> Printf.sprintf "W=ERR kept=1 app=%s TB=%s" app tb
+  | Some n -> Printf.sprintf "W=OK %s kept=1 app=%s TB=%s%s" (nstr n) app tb tail
+  | None -> Printf.sprintf "W=ERR kept=1 app=%s TB=%s%s" app tb tail
 
 (* ---- dispatch ---- *)
 let model_line (f : string list) : string =
@@ -386,6 +400,7 @@ let model_line (f : string list) : string =
     String.concat ";" (List.map nstr d)
   | ["build"; c; ops] -> show_build (ctor_of c) (ops_of ops)
   | ["write"; pre; p] -> show_write (mbytes pre) (payload_of p)
+  | ["write"; pre; p; hist] -> show_write ~hist (mbytes pre) (payload_of p)
   | ["buildparse"; c; ops] -> show_buildparse (ctor_of c) (ops_of ops)
   | ["rebuild"; x] -> show_rebuild (mbytes x)
   | m :: _ -> failwith ("model: unknown mode " ^ m)
@@ -429,7 +444,7 @@ let spec_line (f : string list) : string =
        Printf.sprintf "WIRE %s c%d p%d %s [%s]" (hexs (wire cmd (proto_of pr) a tlvs)) (cmd_code cmd) (proto_code (proto_of pr)) (v2_addr a)
          (String.concat "," (List.map (fun (k, v) -> Printf.sprintf "T%s:%s" (nstr k) (hexs v)) tlvs))
      | _ -> "-")
-  | ["write"; pre; p] ->
+  | ["write"; _; p] | ["write"; _; p; _] ->
     let p = payload_of p in
     Printf.sprintf "ENC %s big=%s" (hexs (enc_payload p)) (b01 (oversize p))
   | _ -> "-"
